@@ -8,6 +8,30 @@ use precis_core::{CodepointInfo, Error};
 use std::borrow::Cow;
 use std::cell::RefCell;
 
+const COLLISIONS: [(&str, &str); 17] = [
+    ("costarring", "liquid"),
+    ("declinate", "macallums"),
+    ("altarage", "zinke"),
+    ("altarages", "zinkes"),
+    ("creamwove", "quists"),
+    ("Aa", "BB"),
+    ("AaAa", "BBBB"),
+    ("AaBB", "BBAa"),
+    ("hetairas", "mentioner"),
+    ("heliotropes", "neurospora"),
+    ("depravement", "serafins"),
+    ("stylist", "subgenera"),
+    ("joyful", "synaphea"),
+    ("redescribed", "urites"),
+    ("dram", "vivency"),
+    ("plumless", "buckeroo"),
+    ("codding", "gnu"),
+];
+
+thread_local! {
+    static SCHEME: std::cell::Cell<u8> = const { std::cell::Cell::new(0) };
+}
+
 /// value of a state function: next state index, or fail
 const FAIL: usize = usize::MAX;
 
@@ -29,6 +53,28 @@ const STATIC_MB: [&str; 10] = [
 ];
 
 fn state_name(i: usize, multibyte: bool) -> String {
+    // naming scheme selected per thread: 0 = short (default), 1 = long names that share a 70-byte prefix and
+    // have equal length, 2 = long names where each state is a strict prefix of the next
+    match SCHEME.with(|s| s.get()) {
+        1 => return format!("{}{}{}", "x".repeat(70), if multibyte { "\u{E9}\u{1F600}" } else { "" }, (b'a' + i as u8) as char),
+        2 => return format!("{}{}", "pre\u{FB01}x-".repeat(6), "\u{6F22}".repeat(i + multibyte as usize)),
+        3 => {
+            // nested: every later state is a strictly interior slice of every earlier one
+            let k = 9usize.saturating_sub(i);
+            return format!("{}{}core{}", "[\u{E9}".repeat(k), if multibyte { "\u{1F600}" } else { "" }, "\u{6F22}]".repeat(k));
+        }
+        s if s >= 10 => {
+            // well-known colliding pairs of common 32-bit string hashes (FNV-1a, FNV-1, x31, DJB2, CRC-32):
+            // a 'hash instead of compare' shortcut is only observable on colliding strings
+            let (x, y) = COLLISIONS[(s - 10) as usize % COLLISIONS.len()];
+            return match i {
+                0 => x.to_string(),
+                1 => y.to_string(),
+                _ => format!("{}{}", x, i),
+            };
+        }
+        _ => {}
+    }
     if multibyte {
         // multi-byte state strings of different lengths
         let mut s = String::from("\u{E9}");
@@ -73,11 +119,15 @@ fn run_mode(f: &[usize], start: usize, multibyte: bool, mode: u8, rec: &mut Rec)
         match r {
             Err(i) => Err(lib_error(i)),
             Ok(n) => {
-                if mode == 2 && f.len() <= 10 {
+                if mode == 2 && f.len() <= 10 && SCHEME.with(|s| s.get()) == 0 {
                     let t = if multibyte { &STATIC_MB } else { &STATIC_ASCII };
                     Ok(Cow::Borrowed(t[f[i.unwrap()]]))
                 } else if mode == 3 && s.starts_with(n.as_str()) {
                     Ok(Cow::Borrowed(&s[..n.len()]))
+                } else if mode == 3 && s.contains(n.as_str()) {
+                    // a strictly interior (or suffix) slice of the argument
+                    let a = s.find(n.as_str()).unwrap();
+                    Ok(Cow::Borrowed(&s[a..a + n.len()]))
                 } else if n == s && borrow_unchanged {
                     Ok(Cow::Borrowed(s))
                 } else {
@@ -100,7 +150,8 @@ fn run_mode(f: &[usize], start: usize, multibyte: bool, mode: u8, rec: &mut Rec)
     let log = log.into_inner();
     let case = || {
         format!(
-            "f={};start={};mb={};mode={}",
+            "scheme={};f={};start={};mb={};mode={}",
+            SCHEME.with(|s| s.get()),
             f.iter().map(|x| if *x == FAIL { "F".to_string() } else { x.to_string() }).collect::<Vec<_>>().join(","),
             start,
             multibyte as u8,
@@ -114,7 +165,7 @@ fn run_mode(f: &[usize], start: usize, multibyte: bool, mode: u8, rec: &mut Rec)
         Out::Panic(_) => unreachable!(),
     };
     if n_apps >= 2 {
-        rec.nontrivial(&class, &(f.to_vec(), start, multibyte, mode), case);
+        rec.nontrivial(&class, &(f.to_vec(), start, multibyte, mode, SCHEME.with(|s| s.get())), case);
     } else {
         rec.count(&class);
     }
@@ -203,6 +254,28 @@ pub fn run(env: &Env) -> Rec {
         rec.merge(r);
     }
     rec.exhaustive(format!("all total-or-failing functions on n<={} states x every start state", max_n));
+    // the same function spaces (n <= 4 / 5) with long state strings: equal length + 70-byte common prefix, and
+    // each state a strict prefix of the next (content- or length-based shortcuts instead of a full comparison)
+    for scheme in (1u8..=3).chain(10..10 + COLLISIONS.len() as u8) {
+        let top = if scheme >= 10 { 3 } else if env.quick() { 4 } else { 5 };
+        for n in 1..=top as usize {
+            let total = (n + 1).pow(n as u32);
+            let r = par(total.div_ceil(500), |c, rec| {
+                SCHEME.with(|s| s.set(scheme));
+                for k in c * 500..((c + 1) * 500).min(total) {
+                    let f = nth_function(n, k);
+                    for start in 0..n {
+                        for mode in [0u8, 1, 3] {
+                            run_mode(&f, start, (k + start) % 2 == 0, mode, rec);
+                        }
+                    }
+                }
+                SCHEME.with(|s| s.set(0));
+            });
+            rec.merge(r);
+        }
+    }
+    rec.exhaustive("the same for n<=4 (quick) / 5 (thorough) with long state strings (70-byte common prefix and equal length; strict prefixes; nested interior slices) and for n<=3 with 17 well-known colliding string pairs of common 32-bit hashes as state names");
     // long chains / cycles beyond the exhaustive state bound
     for k in 0..=8usize {
         // converge after exactly k changes: 0 -> 1 -> ... -> k -> k
@@ -243,6 +316,7 @@ pub fn replay(_env: &Env, _op: &str, case: &str) -> Rec {
         s.split(',').map(|x| if x == "F" { FAIL } else { x.parse().unwrap_or(0) }).collect()
     });
     let start = super::kv_get(case, "start").and_then(|s| s.parse().ok());
+    SCHEME.with(|s| s.set(super::kv_get(case, "scheme").and_then(|x| x.parse().ok()).unwrap_or(0)));
     match (f, start) {
         (Some(f), Some(start)) if start < f.len() && f.iter().all(|x| *x == FAIL || *x < f.len()) => run_mode_replay(
             &f,
